@@ -83,17 +83,20 @@ def ans_coq(a):
     return '(mkAns %s %s (mkA %d %d %d %d) %d [%s])' % (errcoq(a['err']), ent_coq(a['ent']), t['ino'], t['uid'], t['gid'], t['tag'], a['tag'],
         '; '.join('(%d, %d, %s)' % (dino, k, ent_coq(de)) for dino, k, de in a['dir']))
 
-def mk_req(op, ino, hdr=None, uid=0, gid=0, ino2=0, name=('norm', 1), name2=('norm', 2), auid=0, agid=0, size=4096, offset=0, limit=100, ans=None):
+def mk_req(op, ino, hdr=None, uid=0, gid=0, ino2=0, name=('norm', 1), name2=('norm', 2), auid=0, agid=0, size=4096, offset=0, limit=100, ans=None, mode='s'):
+    """mode: 's' FileSystem method, 'a' AsyncFileSystem method (backend futures ready), 'y' the same with every backend future Pending once"""
     if hdr is None:
         hdr = ino2 if op == 'link' else (0 if op == 'batch_forget' else ino)
     return {'k': 'R', 'op': op, 'hdr': hdr, 'uid': uid, 'gid': gid, 'ino': ino, 'ino2': ino2, 'name': name, 'name2': name2,
-            'auid': auid, 'agid': agid, 'size': size, 'offset': offset, 'limit': limit, 'ans': ans or mk_ans()}
+            'auid': auid, 'agid': agid, 'size': size, 'offset': offset, 'limit': limit, 'ans': ans or mk_ans(), 'mode': mode}
 
 class Tables:
     """method tables from the translator"""
     def __init__(self, t):
         self.t = t
         self.code = dict((e['name'], e['code']) for e in t['methods']); self.code['mount'] = 100
+        for e in t['methods']: self.code['a:' + e['name']] = 200 + e['code']          # Model/Vfs.v async_tag
+        self.async_ops = list(t.get('async_twins', []))
         self.fwd = [e['name'] for e in t['methods'] if e['vfs'] and e['vfs']['cls'] in ('plain', 'entry')]
         self.entry_ops = [e['name'] for e in t['methods'] if e['vfs'] and e['vfs']['cls'] == 'entry']
         self.validating = [e['name'] for e in t['methods'] if e['vfs'] and e['vfs'].get('validate')]
@@ -110,7 +113,7 @@ def step_tok(st):
     if k == 'Q': return 'Q'
     if k == 'S': return 'S %d %s' % (st['ver'], st['fresh'])
     r = st
-    return 'R %s %d %d %d %d %d %s %s %d %d %d %d %d %s' % (r['op'], r['hdr'], r['uid'], r['gid'], r['ino'], r['ino2'], name_tok(r['name']),
+    return 'R %s %d %d %d %d %d %s %s %d %d %d %d %d %s' % ({'a': 'a', 'y': 'y'}.get(r.get('mode'), '') + r['op'], r['hdr'], r['uid'], r['gid'], r['ino'], r['ino2'], name_tok(r['name']),
         name_tok(r['name2']), r['auid'], r['agid'], r['size'], r['offset'], r['limit'], ans_tok(r['ans']))
 
 def op_coq(r, tb):
@@ -137,7 +140,7 @@ def step_coq(st, tb):
     if k == 'S':
         return '(SSaveRestore %d %s [%s])' % (st['ver'], 'true' if st['fresh'] == 'default' else 'false',
             '; '.join('(%d, %d, %s, %s)' % (b, i, path_coq(p), mans_coq(a)) for b, i, p, a in st['reattach']))
-    return '(SReq %d (mkC %d %d) %s %s)' % (st['hdr'], st['uid'], st['gid'], op_coq(st, tb), ans_coq(st['ans']))
+    return '(%s %d (mkC %d %d) %s %s)' % ('SReqA' if st.get('mode') in ('a', 'y') else 'SReq', st['hdr'], st['uid'], st['gid'], op_coq(st, tb), ans_coq(st['ans']))
 
 CFG_FLAGS = ['rm', 'no_open', 'no_opendir', 'no_writeback', 'killpriv_v2', 'no_readdir', 'seal_size']
 def cfg_tok(i, cfg): return 'CASE %d %s %s' % (i, map_tok(cfg['gmap']), ' '.join(str(int(bool(cfg.get(f, 0)))) for f in CFG_FLAGS))
@@ -451,6 +454,8 @@ class HistoryGen:
                  auid=self.uid(), agid=self.uid(), size=self.rng.choice([4096, 4096, 0, 1]), offset=self.rng.choice([0, 0, 0, 1, 2, 7]),
                  limit=self.rng.choice([100, 100, 0, 1, 2]), ans=a)
         if op == 'setattr': d['size'] = self.rng.choice(SETATTR_VALID)
+        if op in tb.async_ops and not os.environ.get('VFS_NO_ASYNC'):
+            d['mode'] = self.rng.choice(['s', 's', 'a', 'y'])          # each of the ten twin operations through either entry point
         d.update(kw)
         st = mk_req(op, ino, **d)
         o = self.c.do(st)
@@ -484,7 +489,7 @@ def replay_generic(prop, path, features=None):
     exit 1 when the recorded (failing) observations are reproduced, 0 when the implementation now answers differently."""
     d = json.load(open(path))
     items = d.get('failing') or [b for b in d.get('broken', []) if isinstance(b, dict) and b.get('case')]
-    ok, out, bindir = cargo_build(['vfs'], features=['persist'])      # one feature set for C07/C14/C19: they share the binary
+    ok, out, bindir = cargo_build(['vfs'], features=['persist', 'async-io'])      # one feature set for C07/C14/C19: they share the binary
     if not ok:
         print(out[-2000:]); return 2
     rc = 0
